@@ -97,7 +97,8 @@ def starvedBy (d p delta : Nat) (kind : String) (ops : List (List String)) (j : 
     | _ => false
 
 def modes : List (String × Batcher.Mode) :=
-  [("adaptive", .adaptive 1000), ("single", .single), ("fixed1", .fixed 1), ("fixed1000", .fixed 1000)]
+  [("adaptive", .adaptive 1000), ("single", .single), ("fixed1", .fixed 1), ("fixed3", .fixed 3),
+   ("fixed1000", .fixed 1000), ("adaptive2", .adaptive 2), ("adaptive5", .adaptive 5)]
 
 def handle (c : Case) : Verdict :=
   match c.header with
@@ -144,7 +145,7 @@ def handle (c : Case) : Verdict :=
       let msgs := atMsgs ++ resMsgs
       let nRes := (c.implOut.filter (·.startsWith "result ")).length
       let oracle :=
-        if nRes ≠ 4 then some "[C18] missing result lines"
+        if nRes ≠ modes.length then some "[C18] missing result lines"
         else if implAT.length ≠ opIdx.length then some "[C18] number of verdict lines differs from number of ops"
         else match msgs with
           | [] => none
@@ -153,7 +154,9 @@ def handle (c : Case) : Verdict :=
               some ("[C18] known:F12-starved-batcher-under-continued-input " ++ "; ".intercalate (msgs.map (·.1)))
             else some ("[C18] " ++ (match msgs.find? (fun x => !x.2) with | some x => x.1 | none => m))
       { out, oracle, nontrivial := xs.length ≥ 1,
-        tags := [s!"d{d}", s!"p{p}", s!"delta{delta}", kind, s!"n{min (xs.length / 5 * 5) 30}"] }
+        -- `nodiff`: the per-element verdict lines of the model side are constant (`ok`) or echoed
+        -- (F12 candidates); only the `result` lines are computed by the pipeline model
+        tags := [s!"d{d}", s!"p{p}", s!"delta{delta}", kind, s!"n{min (xs.length / 5 * 5) 30}", "nodiff"] }
     | _, _, _ => { out := [], oracle := some "bad header", nontrivial := false }
   | _ => { out := [], oracle := some "bad header", nontrivial := false }
 
